@@ -158,10 +158,16 @@ def run_gcase(case, seed=0, replay_dir=None, known=None):
         vord = getattr(case, "validate_order", case.order)
         worst = [0.0, 0.0]
         for k in range(case.n_validate):
-            qdom.reset()
-            Vs = GConcV(seed + 17 * k + 1, s0=case.validate_s0, series=True, lo=-3, hi=3)
-            inp = case.inputs(Vs)
-            o_int, _ = interp(inp)
+            for attempt in range(6):
+                qdom.reset()
+                Vs = GConcV(seed + 17 * k + 1 + 1009 * attempt, s0=case.validate_s0, series=True, lo=-3, hi=3)
+                inp = case.inputs(Vs)
+                try:
+                    o_int, _ = interp(inp)
+                    break
+                except jx.Unsupported as ex:  # a degenerate draw (exactly singular matrix / zero pivot): draw again
+                    if attempt == 5 or not any(t in str(ex) for t in ("singular", "constant zero")):
+                        raise
             li = jax.tree_util.tree_leaves(o_int, is_leaf=lambda x: isinstance(x, np.ndarray))
             for j, s0q in enumerate((case.validate_s0, case.validate_s0 / 2)):
                 Vr = GConcV(values=Vs.values, s0=s0q, series=False)
